@@ -51,7 +51,21 @@ def _lcg_seq(n, salt, alphabet):
 
 
 ALPHABETS = {"base": "ACGTacgtNnRYKM", "dna": "ACGT", "acgtn": "ACGTN", "rna": "ACGU", "aa": "ACDEFGHIKLMNPQRSTVWY"}
-FASTA_LENGTHS = {"quick": [80, 1, 81, 160, 79, 161], "thorough": [80, 1, 81, 160, 79, 161, 2, 159, 240, 241]}
+_width = []
+
+
+def fasta_width():
+    """line width of the FASTA writer: the public class attribute MultiLineFastaBuffer.n_characters_per_line (80)"""
+    if not _width:
+        from bionumpy.io.multiline_buffer import MultiLineFastaBuffer
+        _width.append(int(MultiLineFastaBuffer.n_characters_per_line))
+    return _width[0]
+
+
+def fasta_lengths(tier):
+    W = fasta_width()
+    ls = [W, 1, W + 1, 2 * W, W - 1, 2 * W + 1] + ([2, 2 * W - 1, 3 * W, 3 * W + 1] if tier == "thorough" else [])
+    return [l for l in ls if l >= 1]
 FASTQ_LENGTHS = [4, 1, 80, 31, 81, 2, 100, 5]
 QUAL_CHARS = "".join(chr(c) for c in range(33, 127))
 
@@ -86,7 +100,7 @@ def pool(tname, variant, tier):
     if tname in ("fasta", "fasta2"):
         alph = ALPHABETS[variant or "base"]
         names = ["s1", "seq2 some description", "c", IDS[3], "x|y", "chr10", "A", "n 1"]
-        lengths = FASTA_LENGTHS[tier] if tname == "fasta" else [4, 1, 80, 81, 200, 2]
+        lengths = fasta_lengths(tier) if tname == "fasta" else [4, 1, 80, 81, 200, 2]
         return [[names[j % len(names)], _lcg_seq(L, j + 1, alph)] for j, L in enumerate(lengths)]
     if tname == "fastq":
         alph = ALPHABETS[variant or "base"]
@@ -167,7 +181,15 @@ def table_class(bnp, spec):
     return getattr(dt, spec.cls)
 
 
-def buffer_type(bnp, spec):
+_narrow = {}
+
+
+def buffer_type(bnp, spec, width=None):
+    if width:
+        if width not in _narrow:
+            from bionumpy.io.multiline_buffer import MultiLineFastaBuffer
+            _narrow[width] = type("FastaWidth%d" % width, (MultiLineFastaBuffer,), {"n_characters_per_line": width})
+        return _narrow[width]
     if spec.buffer is None:
         return None
     if spec.buffer == "custom":
@@ -240,6 +262,10 @@ def write_pieces(bnp, path, bt, pieces, mode, wmode="w", amode="a"):
     elif mode == "stream":
         with bnp.open(path, wmode, buffer_type=bt) as f:
             f.write(NpDataclassStream(iter(pieces)))
+    elif mode == "grouped":
+        from bionumpy.streams import grouped_stream
+        with bnp.open(path, wmode, buffer_type=bt) as f:
+            f.write(grouped_stream(iter([("g%d" % i, p) for i, p in enumerate(pieces)])))
     elif mode == "append":
         with bnp.open(path, wmode, buffer_type=bt) as f:
             f.write(pieces[0])
@@ -278,13 +304,13 @@ def region(rows):
     return ":bigint" if any(big(v) for r in rows for v in r) else ""
 
 
-def check_content(spec, rows, data, expected_header=None):
+def check_content(spec, rows, data, expected_header=None, width=None):
     """-> (ok, kind, message); kind in '', 'header-missing', 'header-repeated', 'header-misplaced', 'body'.
     expected_header: exact header bytes expected (lazy path / column header); None: VCF default header (structure
     only) or no header at all."""
     marker = header_marker(spec, expected_header.decode() if expected_header else None)
     if marker is None:
-        ok, msg = ref.body_matches(spec, rows, data)
+        ok, msg = ref.body_matches(spec, rows, data, width or (fasta_width() if spec.layout == "fasta80" else None))
         return ok, ("" if ok else "body"), msg
     head, body = ref.split_header(spec, data, marker)
     ok, msg = ref.body_matches(spec, rows, body)
@@ -331,7 +357,7 @@ def compare_readback(spec, rows, table):
 
 def header_signature(mode, zpart, kind, all_empty=False):
     """header faults are a matter of the writer, not of the table type: one signature per (mode, target, kind)"""
-    if all_empty and mode == "stream":
+    if all_empty and mode in ("stream", "grouped"):
         return "header-not-once:stream:%s:no-nonempty-chunk" % kind[7:]
     return "header-not-once:%s%s:%s" % (mode, zpart, kind[7:])
 
@@ -350,7 +376,7 @@ def evaluate_write(tmp, case, tag="t"):
     import bionumpy as bnp
     spec = SPECS[case["type"]]
     rows, variant, split, mode, gz = case["rows"], case.get("variant"), case["split"], case["mode"], case["gz"]
-    bt = buffer_type(bnp, spec)
+    bt = buffer_type(bnp, spec, case.get("width"))
     suffix = case.get("suffix") or spec.suffix
     path = os.path.join(tmp, tag + suffix + (".gz" if gz else ""))
     res = {"write": None, "readback": None}
@@ -362,7 +388,7 @@ def evaluate_write(tmp, case, tag="t"):
         res["write"] = ("exc", type(e).__name__, traceback.format_exc()[-500:])
         return res
     exp_header = header_marker(spec) + b"\n" if spec.header == "columns" else None
-    ok, kind, msg = check_content(spec, rows, data, exp_header)
+    ok, kind, msg = check_content(spec, rows, data, exp_header, case.get("width"))
     if not ok:
         res["write"] = ("header", kind[7:], msg) if kind.startswith("header") else ("body", "", msg)
         return res
@@ -394,12 +420,28 @@ def _label(tmp, case, key, outcome):
     return case["type"]
 
 
+_memo = {}
+
+
 def classify_write(tmp, case, outcome):
+    """memo over (type, variant, mode, target, shape of the split, region, outcome): the probes below are deterministic
+    in these for everything the enumeration varies otherwise (the field contents of the rows)"""
+    key = (case["type"], case.get("variant"), case["mode"], case["gz"], tuple(min(k, 2) for k in case["split"]),
+           len(case["rows"]), region(case["rows"]), outcome[0], outcome[1], case.get("suffix"), case.get("wmode"), case.get("amode"),
+           case.get("width"))
+    if key not in _memo:
+        _memo[key] = _classify_write(tmp, case, outcome)
+    return _memo[key]
+
+
+def _classify_write(tmp, case, outcome):
     """signature of a failed write case: few, specific classes.  Failures of the single plain write of the table are
     'canonical-bytes:<what>'; otherwise the fault needs the pieces / the target and is named after the mode."""
     n = len(case["rows"])
     mode, gz, split = case["mode"], case["gz"], case["split"]
     tail = {"exc": ":exception:" + outcome[1], "header": "", "body": ""}[outcome[0]]
+    if mode == "grouped" and outcome[0] == "exc":
+        tail = ":exception"                  # which attribute of the (name, chunk) tuple is missed first depends on the type
     one_case = dict(case, split=[n], mode="one", gz=False, readback=False)
     is_one_plain = mode == "one" and not gz
     one = outcome if is_one_plain else evaluate_write(tmp, one_case, tag="probe")["write"]
@@ -464,7 +506,7 @@ def exec_write(col, tmp, case):
 
 
 def source_bytes(spec, rows, header):
-    return header.encode() + ref.serialise(spec, rows)
+    return header.encode() + ref.serialise(spec, rows, fasta_width())
 
 
 def _set_value(bnp, kind, values):
@@ -740,6 +782,31 @@ def mode_family(tier):
                            "wmode": w, "amode": a}
 
 
+def width_family(tier):
+    """FASTA line widths other than the default (subclass with n_characters_per_line = W), every length 1..2W+2"""
+    for W in (1, 2, 3, 7):
+        seqs = [_lcg_seq(L, L + W, ALPHABETS["base"]) for L in range(1, 2 * W + 3)]
+        for i, sq in enumerate(seqs):
+            rows = [["s%d" % i, sq]]
+            yield {"kind": "write", "type": "fasta", "variant": "base", "rows": rows, "split": [1], "mode": "one", "gz": False,
+                   "readback": True, "width": W}
+            other = seqs[(i * 3 + 1) % len(seqs)]
+            rows = [["s%d" % i, sq], ["t", other], ["u" * (i + 1), sq[::-1]]]
+            yield {"kind": "write", "type": "fasta", "variant": "base", "rows": rows, "split": [3], "mode": "one", "gz": False,
+                   "readback": True, "width": W}
+            yield {"kind": "write", "type": "fasta", "variant": "base", "rows": rows, "split": [1, 2], "mode": "multi", "gz": i % 2 == 1,
+                   "width": W}
+
+
+def grouped_family(tier):
+    for tname in ("interval", "vcf", "fastq", "custom_tsv"):
+        p = pool(tname, None, tier)
+        for rows in ([], p[:1], p[1:3]) + ((p[2:5],) if tier == "thorough" else ()):
+            for s in splits(len(rows), tier == "thorough"):
+                for gz in ((False, True) if tname == "vcf" else (False,)):
+                    yield {"kind": "write", "type": tname, "variant": None, "rows": rows, "split": s, "mode": "grouped", "gz": gz}
+
+
 def _alt_values(kind, old, j):
     if kind in ("int", "vcfpos"):
         return [[3, 99, 100, 0, 12345678, 9, 1000][(i + j) % 7] for i in range(len(old))]
@@ -784,11 +851,11 @@ def rechunk_family(tier):
         rows = [p[i % len(p)] for i in (0, 1, 2, 3, 1, 0, 2, 3, 3, 0)]
         if tname == "fasta":
             rows = [p[i % len(p)] for i in (0, 1, 2, 1, 0)]
-        body = ref.serialise(spec, rows)
+        body = ref.serialise(spec, rows, fasta_width())
         if spec.layout == "tsv":
             longest = max(len(l) for l in body.split(b"\n")) + 1
         else:
-            longest = max(len(ref.serialise(spec, [r])) for r in rows)
+            longest = max(len(ref.serialise(spec, [r], fasta_width())) for r in rows)
         for header in HEADERS[tname]:
             for chunk in sorted(set([2 * longest + 1, 3 * longest, 5 * longest + 3, len(body) + len(header) + 7])):
                 for gz in (False, True):
@@ -803,8 +870,8 @@ def all_cases(tier):
     plans = [(tv, K, K3) for tv in TYPE_VARIANTS] + [(tv, kminor, kminor) for tv in MINOR_VARIANTS]
     for n_rows in (0, 1, 2, 3):
         if n_rows == 3:
-            for fam in (int_family(), bigint_family(), suffix_family(tier), mode_family(tier), lazy_family(tier),
-                        rechunk_family(tier)):
+            for fam in (int_family(), bigint_family(), suffix_family(tier), mode_family(tier), width_family(tier),
+                        grouped_family(tier), lazy_family(tier), rechunk_family(tier)):
                 for c in fam:
                     yield c
         for (tname, variant), k, k3 in plans:
@@ -818,12 +885,15 @@ def all_cases(tier):
                 rows = [p[i] for i in idx]
                 if variant == "strenc" and not rows:
                     continue
+                if tier == "quick" and n_rows == 3 and (tname, variant) in MINOR_VARIANTS and idx[0] != idx[1]:
+                    continue
                 for level in (0, 1):
                     for c in write_cases_for_table(tname, variant, rows, tier, level, rich):
                         yield c
 
 
 def run(tier="quick", seed=0):
+    _memo.clear()
     K = 4 if tier == "quick" else 6
     col = Collector("C03", tier, seed,
                     "exhaustive: per type/variant every table of 0..2 rows over a pool of K hand-built rows (field widths 1..long, "
@@ -835,9 +905,9 @@ def run(tier="quick", seed=0):
                     budget_s=65 if tier == "quick" else 640)
     col.bounds = {"types": [t + (":" + v if v else "") for t, v in TYPE_VARIANTS + MINOR_VARIANTS],
                   "pool_rows_K": K, "rows_per_table": "0..3", "three_row_tables": "K*K sample" if tier == "quick" else "all K^3",
-                  "fasta_lengths": FASTA_LENGTHS[tier], "fasta_width": 80, "fastq_lengths": FASTQ_LENGTHS[:K],
+                  "fasta_lengths": fasta_lengths(tier), "fasta_width": [fasta_width(), 1, 2, 3, 7], "fastq_lengths": FASTQ_LENGTHS[:K],
                   "int_boundaries": "10^k-1, 10^k for k=1..14, 2^31, 2^32, 2^53 (+-1); region bigint: |v| >= 10^15-1 up to int64 limits",
-                  "splits": "all compositions + empty piece first/last/middle", "modes": ["one", "multi", "stream", "append"],
+                  "splits": "all compositions + empty piece first/last/middle", "modes": ["one", "multi", "stream", "append", "grouped (small family)"],
                   "targets": ["plain", "gzip"], "float_tolerance": "1e-9 relative"}
     with TmpDir() as tmp:
         for case in all_cases(tier):
